@@ -1,14 +1,15 @@
 #!/bin/bash
 # confirm_seed.sh <seed-id> — independent confirmation of a seeded change: apply
-# seeded/<id>/patch.diff to the scratch worktree /tmp/seed-<CNN> (which has a
+# seeded/<id>/patch.diff to the scratch worktree ${CONFIRM_PREFIX:-/tmp/seed-}<CNN> (which has a
 # pristine baseline-configured _build from the sub-agent), rebuild, run the
 # project's own test suite, revert.  Writes seeded/<id>/confirm.txt.
-id=$1; prop=${id%%-*}; W=/tmp/seed-$prop; V=$(cd "$(dirname "$0")/.." && pwd)
+id=$1; prop=${id%%-*}; W=${CONFIRM_PREFIX:-/tmp/seed-}$prop; V=$(cd "$(dirname "$0")/.." && pwd)
 [ -d "$W/_build" ] || { echo "$id: no worktree build"; exit 2; }
-git -C "$W" checkout -q -- . && git -C "$W" apply "$V/seeded/$id/patch.diff" || { echo "$id: patch does not apply"; exit 2; }
+git -C "$W" checkout -q -- . && git -C "$W" checkout -q --detach "$(git -C /repo rev-parse HEAD)" && git -C "$W" apply "$V/seeded/$id/patch.diff" || { echo "$id: patch does not apply"; exit 2; }
 out=$V/seeded/$id/confirm.txt
 {
   echo "confirmed in scratch worktree $W (baseline configuration, RelWithDebInfo), $(date -u +%FT%TZ)"
+  echo "base: /repo HEAD $(git -C "$W" rev-parse --short HEAD)"
   echo "files: $(git -C "$W" diff --stat | tail -1)"
   if cmake --build "$W/_build" -j6 >/tmp/confirm-$id.build.log 2>&1; then echo "build: ok"; else echo "build: FAILED"; tail -5 /tmp/confirm-$id.build.log; fi
   ctest --test-dir "$W/_build" -j6 --timeout 900 2>&1 | tail -4
